@@ -272,8 +272,10 @@ class SuperAgentWrapper(Wrapper):
 
     def _get_null_obs(self, agent_id, **kwargs):
         assert agent_id in self._covered_agents, "Can only use null obs for covered agents."
-        if self.sim.agents[agent_id].null_observation:
-            return self.sim.agents[agent_id].null_observation
+        null_observation = self.sim.agents[agent_id].null_observation
+        if not (type(null_observation) is dict and len(null_observation) == 0):
+            # A null observation was declared (the empty dict stands for none given).
+            return null_observation
         # if agent_id in self.null_obs:
         #     return self.null_obs[agent_id]
         else:
